@@ -258,7 +258,8 @@ func (g *srvGen) tsChoice() uint32 {
 func (g *srvGen) opDgram() {
 	r := g.r
 	var d []byte
-	kind := r.pick([]int{45, 10, 6, 6, 6, 5, 6, 5, 4, 4, 3, 6})
+	kind := r.pick([]int{45, 10, 6, 6, 6, 5, 6, 5, 4, 4, 3, 6, 2})
+	forceUDP := false
 	if len(g.devs) == 0 && kind != 8 {
 		kind = 9
 	}
@@ -323,6 +324,17 @@ func (g *srvGen) opDgram() {
 		if d == nil {
 			d = mk().Serialize()
 		}
+	case 12: // a valid report whose signature ends in a zero byte, sent one byte short (zero padding would complete it)
+		dv := g.devs[r.Intn(len(g.devs))]
+		ts := g.tsChoice()
+		for p := uint64(2 + r.Intn(1000)); ; p++ {
+			rep := MkReport(dv.id, ts, p, dv.key.Priv)
+			if rep.Signature[63] == 0 {
+				d = rep.Serialize()[:79]
+				break
+			}
+		}
+		forceUDP = true
 	default: // multi-bit mutation
 		d = mk().Serialize()
 		for k := 0; k < 3; k++ {
@@ -331,7 +343,7 @@ func (g *srvGen) opDgram() {
 		}
 	}
 	// a share of the datagrams travels through the real UDP socket, with a marker report behind it
-	if len(g.devs) > 0 && r.Chance(12) && len(d) <= 1400 {
+	if len(g.devs) > 0 && (forceUDP || r.Chance(12)) && len(d) <= 1400 {
 		dv := g.devs[r.Intn(len(g.devs))]
 		now := glow.CurrentTimeslot()
 		off := g.off()
